@@ -24,7 +24,7 @@ func init() {
 // richPool: constants of every kind, with the characters the format has to
 // get right.
 func richPool(r *simrt.Run, n int) []Val {
-	names := []string{"/a", "/b", "/a/b", "/x.y", "/x-y_z", "/t~1", "/A/b/C", "/n0", "/a%41", "/100%", "/%"}
+	names := []string{"/a", "/b", "/a/b", "/x.y", "/x-y_z", "/t~1", "/A/b/C", "/n0", "/a%41", "/100%", "/%", "/a%b%41", "/%%", "/x%25%2F"}
 	strs := []string{"", "s", "a b", "q\"uote", "back\\slash", "tab\there", "new\nline", "ünï©ode \U0001f600", "'single'", "/looks/like/name", "100%", "a+b", "[1, 2]", "x\x00y", "\x7f", "cr\rlf", "crlf\r\nend", "\r"}
 	bytess := []string{"", "\x00\xff\x80", "ab\"c\\", "\n\r\t"}
 	ints := []int64{0, 1, -1, 7, 42, 9223372036854775807, -9223372036854775808, 65792}
